@@ -945,6 +945,11 @@ def big_bitlen(eng, st, fr, args, ins):
 def big_string(eng, st, fr, args, ins):
     if args[0] is None:
         return "<nil>"
+    neg, mag = big_get2(eng, st, args[0])
+    if neg is True and not is_sym(mag):
+        return "-" + str(mag)
+    if neg is not False:
+        return SymStr("opaque", "decimal of a possibly negative big.Int")
     v = big_get(eng, st, args[0])
     if not is_sym(v):
         return str(v)
